@@ -257,14 +257,16 @@ def run(index: RepoIndex, rep) -> None:
     rep.check(direct == ['reset_gv_rng'], 'C02.R1', RNG, '_gv_rng', 1, ', '.join(direct),
               f'the library-level generator is written by {direct}, not only by reset_gv_rng',
               '_gv_rng writers')
-    for name, want in (('get_gv_rng', 'reset_gv_rng() if _gv_rng is None else _gv_rng'),
-                       ('get_gv_rng_if_none', 'get_gv_rng() if rng is None else rng')):
+    from ..guards import returns_by_none
+    for name, term, if_none in (('get_gv_rng', '_gv_rng', 'reset_gv_rng()'),
+                                ('get_gv_rng_if_none', 'rng', 'get_gv_rng()')):
         g = index.func(RNG, name)
-        bb = g.body()
-        rep.check(len(bb) == 1 and isinstance(bb[0], ast.Return) and src(bb[0].value) == want,
-                  'C02.R1', RNG, name, g.node.lineno, src(bb[-1]),
-                  f'{name} is not `{want}`: the fallback generator would be used (or reset) '
-                  f'when a generator is supplied', name)
+        got = returns_by_none(walk_function(g.node), term)
+        rep.check(got == {True: if_none, False: term},
+                  'C02.R1', RNG, name, g.node.lineno, str(got),
+                  f'{name} is not `{if_none} if {term} is None else {term}` (it yields {got}): '
+                  f'the fallback generator would be used (or reset) when a generator is '
+                  f'supplied', name)
 
     # ---------------------------------------------------------------- R2
     for q, f in sorted(eff.funcs.items()):
